@@ -1,12 +1,18 @@
-//! C02 — a mint charges exactly the price in force and disburses all of it (vending family).
+//! C02 — a mint charges exactly the price in force and disburses all of it.
+//! Part 1: the six vending minters (w_sale.rs / SaleCorr.v).  Part 2: the three open-edition
+//! minters and the base minter (oe_world.rs / SaleOeCorr.v).  Token-merge minter: not covered
+//! here (its deposit logic is C17's).
 //! Worlds with governance-chosen prices / fee bps / airdrop price, native and IBC factory
-//! denom, with and without payment address, optional whitelist with its own price, on all
-//! six vending minters.  Histories are generated *adaptively*: before every mint the
-//! generator asks the real contracts for the price in force and then sends the payment
-//! sweep (price-1, price+1, wrong denom, two coins, nothing / a coin at price 0, exact).
-//! The executed op list is the case (so a replay re-runs exactly it).  Monitors evaluate
-//! the property text on bank balances before/after every step; every minter step is also
-//! printed for the Coq model (corr/SaleCorr.v: handler state, queries, every balance).
+//! denom, with and without payment address, optional whitelist with its own price.
+//! Histories are generated *adaptively*: before every mint the generator asks the real
+//! contracts for the price in force and then sends the payment sweep (price-1, price+1,
+//! wrong denom, two coins, nothing / a coin at price 0, exact).  The executed op list is the
+//! case (so a replay re-runs exactly it).  Monitors (`judge`) evaluate the property text on
+//! the bank balances of every tracked account and the supply before/after every step; they
+//! share no code with the model.  Every minter step is also printed for the Coq model
+//! (handler state, queries, every balance after every step).
+//! Recorded finding (DESIGN §8 D6): vending airdrops strand price - fee in the minter; key
+//! `C02:vending-airdrop-remainder-stranded` is emitted for exactly that shape and nothing else.
 use crate::chain;
 use crate::util::*;
 use crate::oe_world::*;
@@ -1611,6 +1617,8 @@ pub fn run(a: &Args) {
     if !coq_cases2.is_empty() {
         out.write_cases("C02oe", "From LP Require Import Num Pay Sg1 Bank MinterVending MinterOpen SaleOeCorr.", "oecase", "sale_oe_check", &coq_cases2, 3, &mut rep);
     }
+    rep.notes.push("observation (not a C02 clause, not flagged): the vending and open-edition MintPrice queries build airdrop_price = coin(factory airdrop amount, CONFIG mint denom) while the handler charges the factory's airdrop coin in its own denom (vending factory: always ustars); on an IBC-denominated vending minter the query therefore shows e.g. `9999 ibc/..` while MintTo only accepts `9999 ustars`. The monitors take the airdrop price in force (amount and denom) from the factory parameters.".into());
+    rep.notes.push("token-merge minter: not covered by C02's model (deposit logic belongs to C17); by reading, its airdrop path shares the vending airdrop-remainder behaviour".into());
     out.finish(&rep);
     println!("C02 harness: {} cases, {} steps, {} monitor violations reported", ncases, rep.evaluations, nviol);
 }
